@@ -69,6 +69,29 @@ func (f *Expt) Call(s *slip.Scope, args slip.List, depth int) (result slip.Objec
 			return slip.Fixnum(x)
 		}
 	}
+	if pow, ok := args[1].(slip.Fixnum); ok && 0 <= pow {
+		// A bignum or a ratio to a non-negative integer power is exact
+		// as well.
+		switch base := args[0].(type) {
+		case *slip.Bignum:
+			checkIntegerBits(s, depth, f, args, float64(pow)*float64((*big.Int)(base).BitLen()))
+			var z big.Int
+			return slip.IntegerFromBig(z.Exp((*big.Int)(base), big.NewInt(int64(pow)), nil))
+		case *slip.Ratio:
+			num := (*big.Rat)(base).Num()
+			den := (*big.Rat)(base).Denom()
+			checkIntegerBits(s, depth, f, args, float64(pow)*float64(max(num.BitLen(), den.BitLen())))
+			var zn, zd big.Int
+			zn.Exp(num, big.NewInt(int64(pow)), nil)
+			zd.Exp(den, big.NewInt(int64(pow)), nil)
+			var rat big.Rat
+			rat.SetFrac(&zn, &zd)
+			if rat.IsInt() {
+				return slip.IntegerFromBig(new(big.Int).Set(rat.Num()))
+			}
+			return (*slip.Ratio)(&rat)
+		}
+	}
 	switch base := args[0].(type) {
 	case slip.Real:
 		switch pow := args[1].(type) {
